@@ -86,6 +86,9 @@ def make_cache(kind, root):
 
 def gen_ops(rng, kind):
     keys = rng.sample(KEYS, rng.randint(1, 4))
+    if rng.random() < 0.12:
+        # long keys of equal length that agree on a long prefix (keys built from large arguments that differ in a late one)
+        keys = list(rng.choice([['q' * 300 + 'A', 'q' * 300 + 'B'], ['x' * 5000, 'x' * 4999 + 'y'], ['{"a": [' + '1, ' * 120 + '2]}', '{"a": [' + '1, ' * 120 + '3]}']]))
     if rng.random() < 0.3:
         # a key that is itself the hex digest of another key in use (and its prefix/remainder): keys are opaque strings, never file names
         import hashlib
